@@ -292,6 +292,8 @@ def parse_seg(seg):
             return (k, seg[len(k) + 1:].strip())
     if seg.startswith("impl ") or seg.startswith("impl<"):
         return ("impl", rscan.norm(seg[4:]))
+    if seg.startswith("letblock "):
+        return ("letblock", seg[len("letblock "):].strip())
     if seg.startswith("derive "):
         return ("derive", seg[len("derive "):].strip())
     if seg.startswith("closure "):
@@ -313,6 +315,23 @@ def resolve(file, segs):
     chain = []
     item = None
     for n, (kind, name) in enumerate(segs):
+        if kind == "letblock":
+            # `let NAME [: T] = { ... };`  — the block is lifted like a closure body (R6)
+            found = []
+            for x in range(lo, hi - 1):
+                if toks[x].kind == "id" and toks[x].text == "let" and toks[x + 1].text == name:
+                    y = x + 2
+                    while y < hi and toks[y].text != "=":
+                        y = toks[y].mate + 1 if toks[y].kind == "open" else y + 1
+                    if y + 1 < hi and toks[y + 1].kind == "open" and toks[y + 1].text == "{":
+                        found.append((x, y, y + 1, toks[y + 1].mate, True))
+            if len(found) != 1:
+                raise LostAnchor(f"{file} :: letblock {name} resolves {len(found)} times")
+            r = Resolved()
+            r.src, r.toks, r.closure = src, toks, found[0]
+            r.chain = chain
+            r.kind = "closure"
+            return r
         if kind == "closure":
             found = rscan.find_closures(src, toks, lo, hi, name)
             if len(found) != 1:
